@@ -146,15 +146,18 @@ func scenarioUnit(sc scenario) harness.Unit {
 
 func key16(i int) []byte { return pu.Msg(i*31+7, 16) }
 
-func blockScenario(n int) scenario {
-	sc := scenario{name: fmt.Sprintf("shared-sm4-block/%d-threads", n), stmt: true, bound: 2, boundT: 3,
+// blockScenario: n threads on one FRESH cipher object; pattern gives each thread's operation
+// ('E' or 'D'), so that first uses of either direction overlap.
+func blockScenario(pattern string) scenario {
+	n := len(pattern)
+	sc := scenario{name: fmt.Sprintf("shared-sm4-block/%s", pattern), stmt: true, bound: 2, boundT: 3,
 		setup: func() interface{} { b, _ := sm4.NewCipher(key16(1)); return b }}
 	for i := 0; i < n; i++ {
 		i := i
 		sc.threads = append(sc.threads, func(st interface{}) interface{} {
 			blk := st.(cipher.Block)
 			out := make([]byte, 16)
-			if i%2 == 0 {
+			if pattern[i] == 'E' {
 				blk.Encrypt(out, pu.Msg(100+i, 16))
 			} else {
 				blk.Decrypt(out, pu.Msg(100+i, 16))
@@ -255,7 +258,7 @@ func curveInitScenario() scenario {
 }
 
 func scenarios() []scenario {
-	return []scenario{blockScenario(2), blockScenario(3), cbcScenario(), helpersScenario(), sm3Scenario(), berScenario()}
+	return []scenario{blockScenario("ED"), blockScenario("DD"), blockScenario("EE"), blockScenario("EDE"), blockScenario("DDD"), cbcScenario(), helpersScenario(), sm3Scenario(), berScenario()}
 }
 
 var _ = sort.Strings
